@@ -89,6 +89,7 @@ func Now() time.Duration { return vsched.Now() }
 // ResetGlobals restores process-global mangos state; it is the Reset function of
 // every scenario (runs outside the scheduler).
 func ResetGlobals() {
+	core.VerifNewSocketHook = func(s mangos.Socket) { vsched.AtExit(func() { _ = s.Close() }) }
 	core.VerifResetPipeIDs()
 	inproc.VerifReset()
 	vt.Reset()
